@@ -33,3 +33,26 @@ def link_flags(variant, cbind=False):
 
 def cxx_flags(variant):
     return list(VARIANTS[variant][1]) + (["-DMANIFOLD_PAR=1"] if variant in ("par", "tsan", "vtbb") else ["-DMANIFOLD_PAR=-1"])
+
+
+def source_fingerprint():
+    """Hash of the library sources (paths, sizes, mtimes): lets a check that needs several variants
+    make sure they were all built from the same state of /repo."""
+    import hashlib
+    h = hashlib.sha1()
+    for top in ("src", "include", "bindings/c"):
+        for dp, _, fs in sorted(os.walk(os.path.join(core.REPO, top))):
+            for f in sorted(fs):
+                st = os.stat(os.path.join(dp, f))
+                h.update(("%s/%s:%d:%d;" % (dp, f, st.st_size, st.st_mtime_ns)).encode())
+    return h.hexdigest()
+
+
+def build_consistent(variants, tries=3):
+    for _ in range(tries):
+        fp = source_fingerprint()
+        for v in variants:
+            build(v)
+        if source_fingerprint() == fp:
+            return fp
+    raise core.BuildBroken("the sources under %s kept changing while the variants %s were being built" % (core.REPO, variants))
